@@ -52,6 +52,12 @@ def _run_snippet(unit_file, uid, snippet, seed):
         if 'error[' in full or 'error: could not compile' in full:
             return None, full[-6000:], mod
         found = p.returncode != 0 and 'panicked' in full
+        # a panic raised by the harness module itself that is not one of its own assertions is a harness error
+        n_orig = open(os.path.join(REPO, unit_file)).read().count('\n') + 1
+        for m in re.finditer(r'panicked at ([^:\s]+):(\d+):\d+:\n([^\n]*)', full):
+            if m.group(1).endswith(unit_file) and int(m.group(2)) > n_orig and not (
+                    m.group(3).startswith('assertion') or 'replay' in m.group(3) or 'verify accepted' in m.group(3)):
+                return None, 'replay harness error (panic inside the harness module): ' + m.group(0), mod
         ls = full.split('\n')
         pan = []
         for k, l in enumerate(ls):
